@@ -81,10 +81,77 @@ def sha1(chk, prog, orc):
     if b:
         rots = sorted(core.describe(prog, b, t["args"][1])[1] for blk, t in b.calls_to(r"num::<impl u32>::rotate_left$"))
         chk.ob("R1.sha1", f, "rotations are by 1 (schedule), 5 and 30 (round)", rots == [1, 5, 30], f"{rots}")
-        be = b.calls_to(r"num::<impl u32>::from_(be|le)_bytes$") + [x for c in prog.all_closures_of(f) for x in c.calls_to(r"num::<impl u32>::to_(be|le)_bytes$")] + b.calls_to(r"num::<impl usize>::to_(be|le)_bytes$")
+        be = b.calls_to(r"num::<impl u32>::from_(be|le)_bytes$") + [x for c in prog.all_closures_of(f) for x in c.calls_to(r"num::<impl u32>::to_(be|le)_bytes$")] + b.calls_to(r"num::<impl u(size|64)>::to_(be|le)_bytes$")
         chk.ob("R1.sha1", f, "words, length and digest are big-endian", all("_be_" in t["callee"] for _, t in be) and len(be) >= 3, f"{[t['callee'].split('::')[-1] for _, t in be]}")
         pads = [s for blk in b.blocks for s in blk["stmts"] if "rv" in s and s["rv"]["k"] == "use" and s["rv"]["o"].get("v") == 128 and s["pl"]["p"]]
         chk.ob("R1.sha1", f, "padding starts with the byte 0x80", len(pads) >= 1, "")
+
+
+def sha1_padding(chk, prog, rule="R1.sha1_padding"):
+    """RFC 3174 section 4 padding, for every input length L (R-ARITH, quasi-linear case split):
+    padded length = 64 * ceil((L + 9) / 64); message[0..L] = input; message[L] = 0x80; the last 8 bytes are the big-endian
+    bit count 8 * L; and the block loop runs padded/64 times."""
+    from .. import qlin, panics
+    fs = [p for p in prog.bodies if p.endswith("SHA1Hash>::hash")]
+    if not fs:
+        return
+    f = fs[0]
+    b = prog.bodies[f]
+
+    def is_len(d):
+        d = panics._strip(d)
+        return isinstance(d, tuple) and d[0] == "call" and d[1].endswith("::len") and \
+            desc_contains(d, lambda y: y[0] == "param" and y[1] == 1) and not desc_contains(d, lambda y: y[0] == "call" and y[1].endswith("from_elem"))
+
+    def q(d):
+        return qlin.from_desc(d, is_len, strip=panics._strip)
+
+    ref_len = qlin.mul(qlin.div(qlin.add(qlin.var(), qlin.const(72)), 64), 64)
+
+    def decide(site, d, ref, why, where=""):
+        try:
+            e = q(d)
+            ok, wit = qlin.equal_forall(e, ref)
+            detail = "" if ok else f"{e.text} differs from {ref.text} at L = {wit}: {why}"
+            if not ok and isinstance(wit, int):
+                try:
+                    detail += f" (computed {e(wit)}, required {ref(wit)})"
+                except qlin.NotQuasiLinear:
+                    pass
+        except qlin.NotQuasiLinear as x:
+            ok, detail = False, f"not a quasi-linear function of the input length: {x}"
+        chk.ob(rule, f, site, ok, detail, where=where)
+
+    fe = b.calls_to(r"vec::from_elem$")
+    chk.floor("SHA-1 message buffer allocation", len(fe), 1)
+    for blk, t in fe:
+        decide("padded length == 64 * ceil((L + 9) / 64) for every input length L", core.describe(prog, b, t["args"][1]), ref_len,
+               "a different message is hashed for inputs of that length (wrong digest, wrong Sec-WebSocket-Accept)", b.where(blk))
+    # writes into the buffer
+    n = 0
+    for blk, t in b.calls_to(r"IndexMut(<[^>]*>)?(>)?::index_mut$"):
+        d0 = core.describe(prog, b, t["args"][0])
+        if not desc_contains(d0, lambda y: y[0] == "call" and y[1].endswith("from_elem")):
+            continue
+        ix = core.describe(prog, b, t["args"][1])
+        n += 1
+        if ix[0] == "variant" and ix[2] == "Range":
+            decide("message[a..b] = input: a == 0", ix[3][0], qlin.const(0), "the input is copied to the wrong offset", b.where(blk))
+            decide("message[a..b] = input: b == L", ix[3][1], qlin.var(), "the input is copied only in part", b.where(blk))
+        elif ix[0] == "variant" and ix[2] == "RangeFrom":
+            decide("the bit count occupies the last 8 bytes: start == padded length - 8", ix[3][0], qlin.sub(ref_len, qlin.const(8)),
+                   "the length field is written at the wrong place", b.where(blk))
+        else:
+            decide("the 0x80 marker is written at index L", ix, qlin.var(), "the padding marker does not follow the input", b.where(blk))
+    chk.floor("SHA-1 buffer writes (input, marker, bit count)", n, 3)
+    for blk, t in b.calls_to(r"num::<impl u(size|64)>::to_(be|le)_bytes$"):
+        decide("the bit count written is 8 * L", core.describe(prog, b, t["args"][0]), qlin.mul(qlin.var(), 8), "the encoded message length is wrong", b.where(blk))
+        chk.ob(rule, f, "the bit count is 8 bytes wide", core.re.search(r"impl u64|impl usize", t["callee"]) is not None, t["callee"])
+    for blk, t in b.calls_to(r"IntoIterator>::into_iter$|IntoIterator::into_iter$"):
+        d = core.describe(prog, b, t["args"][0])
+        if d[0] == "variant" and d[2] == "Range" and desc_contains(d[3][1], lambda y: y[0] == "call" and y[1].endswith("::len")):
+            decide("block loop upper bound == padded length / 64", d[3][1], qlin.div(ref_len, 64), "not every block is compressed", b.where(blk))
+            decide("block loop starts at 0", d[3][0], qlin.const(0), "", b.where(blk))
 
 
 def base64(chk, prog, orc):
@@ -402,6 +469,7 @@ def run(chk):
     chk.not_decided = "the SHA-1 compression function as a whole, Base64 bit shuffling and the civil-date algorithm for every input (value properties)"
     chk.assumptions = ["rustc type checking / HIR / MIR", "oracles/constants.json transcribes the RFC constants"]
     sha1(chk, prog, orc)
+    sha1_padding(chk, prog)
     base64(chk, prog, orc)
     percent(chk, prog, orc)
     dates(chk, prog, orc)
